@@ -476,4 +476,23 @@ def extra_checks(ctx):
                     fail('own-cards-round-trip', {'seat': p.name, 'text': own})
         except Exception as e:
             fail('header-round-trip', {'error': repr(e)})
+    # the TRANSLATED receive_message (Generated/PyCoreThreads.lean, class Framing: the source's loop over recv(1), through
+    # desugar_threads.py and translate_py.py) next to the real method: streams of messages, cut anywhere (peer closes),
+    # damaged terminators, non-ASCII texts; a difference is a broken correspondence of the translation, not a violation
+    import thread_check as TC
+    import common
+    driver = common.ModelDriver()
+    alphabet = 'abcXYZ 019.:\'"-é♠\t\n'
+    fcases = [(list('abc\r\nxy\r\n'), True, 3), (list('abc\rx'), True, 2), (list('ab'), False, 1), (list('\r\n\r\n'), True, 3),
+              (list('a\r'), True, 1), (list('a\r'), False, 1), (list(''), True, 1), (list('North bids 1NT\r\n'), False, 2)]
+    for _ in range(60 if ctx.quick else 1500):
+        msgs = [''.join(rng.choice(alphabet) for _ in range(rng.choice([0, 1, 3, 12, 40]))) for _ in range(rng.choice([1, 2, 3]))]
+        text = ''.join(m + rng.choice(['\r\n'] * 8 + ['\r', '\n', '\rx']) for m in msgs)
+        cut = rng.randrange(len(text) + 1) if rng.random() < 0.5 else len(text)
+        fcases.append((list(text[:cut]), rng.random() < 0.7, len(msgs) + 1))
+    for d in TC.check_framing(common.REPO, driver, fcases):
+        if len(fails) < 6:
+            fails.append({'key': 'translated-framing', 'kind': 'broken-correspondence', 'diff': d})
+    ctx.count('translated_framing_streams', len(fcases))
+    ctx.count('_evals', len(fcases))
     return fails
